@@ -8,6 +8,10 @@ import vlib
 
 MODES = ["uniform", "once", "twice"]
 CYCLES = [0.25, 0.5, 1, 2, 3, 0.33, 1.5, 1.0, 0.5, 1, 1, 2.0]
+# micro-ops whose uniform share cycles/len(ports) is of the order of the 0.01 balancing step (no shipped model has them:
+# the smallest shipped share is 6.7 half-steps per micro-op of its instruction): shares of exactly one or two steps are
+# drained to an EXACT 0.0 in binary64 (0.02 - 0.01 - 0.01), shares below half a step round to 0.00 at once
+CYCLES_TINY = [0.02, 0.04, 0.05, 0.06, 0.08, 0.1, 0.12, 0.03, 0.2, 0.25, 0.5, 1, 2, 0.33, 5, 10]
 
 
 def flit(x):
@@ -41,35 +45,52 @@ def gen_ports(rng):
     return names
 
 
-def gen_uop(rng, ports):
+def gen_uop(rng, ports, cycles=None):
     k = rng.randint(1, len(ports))
     ps = rng.sample(ports, k)
     if rng.random() < 0.5:
         ps.sort(key=ports.index)
-    c = rng.choice(CYCLES)
+    c = rng.choice(cycles or CYCLES)
     if all(len(p) == 1 for p in ps) and rng.random() < 0.5:
         ps = "".join(ps)                                         # string collection, iterated per character
     return [c, ps]
 
 
-def gen_form(rng, ports):
+def gen_form(rng, ports, cycles=None):
     r = rng.random()
     nu = rng.choice([1, 1, 1, 2, 2, 3, 4])
-    uops = [gen_uop(rng, ports) for _ in range(nu)]
+    uops = [gen_uop(rng, ports, cycles) for _ in range(nu)]
     form = {"tp": rng.choice([0.25, 0.5, 1.0, 1.0, 2.0, None])}
     if r < 0.08:
         form["tp"] = 0.0                                         # shown but not summed
     if r > 0.88 and len(ports) > 1:
-        alts = [uops] + [[gen_uop(rng, ports) for _ in range(rng.choice([1, 1, 2]))] for _ in range(rng.choice([1, 1, 2]))]
+        alts = [uops] + [[gen_uop(rng, ports, cycles) for _ in range(rng.choice([1, 1, 2]))] for _ in range(rng.choice([1, 1, 2]))]
         form["uops"] = {i: a for i, a in enumerate(alts)}
     else:
         form["uops"] = uops
     return form
 
 
-def gen_case(rng, mode=None, maxlen=12):
+def below_granularity(uops):
+    """does the instruction have a multi-port micro-op whose uniform share does not exceed half a balancing step per
+    micro-op of the instruction (the hypothesis of the one-pass feasibility theorem, Proofs/BalanceMulti.v)?"""
+    us = [(F(repr(float(c))), list(ps)) for c, ps in uops if ps]
+    n = len(us)
+    return any(len(ps) >= 2 and c / len(ps) <= n * F(1, 200) for c, ps in us)
+
+
+def case_below_granularity(case):
+    for fi in set(case["kernel"]):
+        us = case["forms"][fi]["uops"]
+        for alt in (us.values() if isinstance(us, dict) else [us]):
+            if below_granularity(alt):
+                return True
+    return False
+
+
+def gen_case(rng, mode=None, maxlen=12, tiny=False):
     ports = gen_ports(rng)
-    forms = [gen_form(rng, ports) for _ in range(rng.randint(1, 5))]
+    forms = [gen_form(rng, ports, CYCLES_TINY if tiny else None) for _ in range(rng.randint(1, 5))]
     n = rng.choice([1, 2, 3, 3, 4, 5, 6, 8, maxlen])
     kernel = [rng.randrange(len(forms)) for _ in range(n)]
     # the alternative search is exponential in the number of instructions with alternatives: keep <= 2 of them
@@ -77,7 +98,7 @@ def gen_case(rng, mode=None, maxlen=12):
     plain = [j for j, f in enumerate(forms) if not isinstance(f["uops"], dict)]
     for i in dicts[2:]:
         if not plain:
-            f = gen_form(rng, ports)
+            f = gen_form(rng, ports, CYCLES_TINY if tiny else None)
             if isinstance(f["uops"], dict):
                 f["uops"] = list(f["uops"].values())[0]
             forms.append(f)
